@@ -512,6 +512,7 @@ package trend
 
 //@ func WeightedCloseStrategy.Compute
 //@ requires consumed(snapshots) == 0
+//@ import "sma-value", "ema-value"
 //@ guarantees[C06] "input-high" len(arg(WeightedClose_Compute, 0, 0)) == len(snapshots) && (forall k :: 0 <= k && k < len(snapshots) ==> arg(WeightedClose_Compute, 0, 0)[k] == snapshots[k].High)
 //@ guarantees[C06] "input-low" len(arg(WeightedClose_Compute, 0, 1)) == len(snapshots) && (forall k :: 0 <= k && k < len(snapshots) ==> arg(WeightedClose_Compute, 0, 1)[k] == snapshots[k].Low)
 //@ guarantees[C06] "input-close" len(arg(WeightedClose_Compute, 0, 2)) == len(snapshots) && (forall k :: 0 <= k && k < len(snapshots) ==> arg(WeightedClose_Compute, 0, 2)[k] == snapshots[k].Close)
@@ -524,6 +525,30 @@ package trend
 //@ ensures[C05] "range" forall kk :: 0 <= kk && kk < len(result) ==> 0 - 1 <= result[kk] && result[kk] <= 1
 //@ ensures[C03] consumed(snapshots) == len(snapshots) && closed(result)
 //@ ensures[C04] forall kk :: 0 <= kk && kk < len(result) ==> hor(result, kk) <= hor(snapshots, kk)
+//@ rel[C18] "price" param lam real
+//@ rel[C18] "price" assume lam > 0 && len(second(snapshots)) == len(snapshots) && (forall k :: 0 <= k && k < len(snapshots) ==> pscaled(second(snapshots)[k], snapshots[k], lam))
+//@ rel[C18] "price" assume (istype(w.Ma, "trend.Sma") && as(w.Ma, "trend.Sma").Period >= 1) || (istype(w.Ma, "trend.Ema") && as(w.Ma, "trend.Ema").Period >= 1)
+//@ rel[C18] "price" use forall j :: wcS_pscale(highs, lows, closings, second(highs), second(lows), second(closings), lam, j)
+//@ rel[C18] "price" step forall j :: 0 <= j && j < len(snapshots) ==> second(wcSplice[1])[j] == lam * wcSplice[1][j]
+//@ rel[C18] "price" step forall i :: 0 <= i && i < len(wcSplice[0]) ==> second(wcSplice[0])[i] == lam * wcSplice[0][i]
+//@ rel[C18] "price" step istype(w.Ma, "trend.Sma") ==> (forall i :: 0 <= i && i < len(mas) ==> mas[i] == smaS(wcSplice[1], as(w.Ma, "trend.Sma").Period)[i] && second(mas)[i] == smaS(second(wcSplice[1]), as(w.Ma, "trend.Sma").Period)[i])
+//@ rel[C18] "price" use[cond] smaS_scale_n(wcSplice[1], second(wcSplice[1]), lam, as(w.Ma, "trend.Sma").Period, len(snapshots), _)
+//@ rel[C18] "price" use[cond] ema_scale(wcSplice[1], second(wcSplice[1]), lam, as(w.Ma, "trend.Ema").Period, emam(as(w.Ma, "trend.Ema")), _)
+//@ rel[C18] "price" step forall i :: 0 <= i && i < len(mas) ==> second(mas)[i] == lam * mas[i]
+//@ rel[C18] "price" use forall i :: mul_cmp(lam, wcSplice[0][i], mas[i])
+//@ rel[C18] "price" ensures len(second(result)) == len(result) && (forall k :: 0 <= k && k < len(result) ==> second(result)[k] == result[k])
+//@ rel[C18] "volume" param mu real
+//@ rel[C18] "volume" assume mu > 0 && len(second(snapshots)) == len(snapshots) && (forall k :: 0 <= k && k < len(snapshots) ==> vscaled(second(snapshots)[k], snapshots[k], mu))
+//@ rel[C18] "volume" assume (istype(w.Ma, "trend.Sma") && as(w.Ma, "trend.Sma").Period >= 1) || (istype(w.Ma, "trend.Ema") && as(w.Ma, "trend.Ema").Period >= 1)
+//@ rel[C18] "volume" use forall j :: wcS_pscale(highs, lows, closings, second(highs), second(lows), second(closings), 1, j)
+//@ rel[C18] "volume" step forall j :: 0 <= j && j < len(snapshots) ==> second(wcSplice[1])[j] == 1 * wcSplice[1][j]
+//@ rel[C18] "volume" step forall i :: 0 <= i && i < len(wcSplice[0]) ==> second(wcSplice[0])[i] == 1 * wcSplice[0][i]
+//@ rel[C18] "volume" step istype(w.Ma, "trend.Sma") ==> (forall i :: 0 <= i && i < len(mas) ==> mas[i] == smaS(wcSplice[1], as(w.Ma, "trend.Sma").Period)[i] && second(mas)[i] == smaS(second(wcSplice[1]), as(w.Ma, "trend.Sma").Period)[i])
+//@ rel[C18] "volume" use[cond] smaS_scale_n(wcSplice[1], second(wcSplice[1]), 1, as(w.Ma, "trend.Sma").Period, len(snapshots), _)
+//@ rel[C18] "volume" use[cond] ema_scale(wcSplice[1], second(wcSplice[1]), 1, as(w.Ma, "trend.Ema").Period, emam(as(w.Ma, "trend.Ema")), _)
+//@ rel[C18] "volume" step forall i :: 0 <= i && i < len(mas) ==> second(mas)[i] == 1 * mas[i]
+//@ rel[C18] "volume" use forall i :: mul_cmp(1, wcSplice[0][i], mas[i])
+//@ rel[C18] "volume" ensures len(second(result)) == len(result) && (forall k :: 0 <= k && k < len(result) ==> second(result)[k] == result[k])
 
 // ---- reports (C14): every column has one value per date row; rows carry that date's close, annotation, outcome ----
 //@ func AlligatorStrategy.Report
